@@ -1,10 +1,20 @@
 pub mod common;
 pub mod lattice;
+pub mod parse_rt;
+pub mod text;
 
 use crate::drive::Family;
 
 pub fn all() -> Vec<Box<dyn Family>> {
-    vec![Box::new(lattice::Lattice)]
+    vec![
+        Box::new(lattice::Lattice),
+        Box::new(text::strings()),
+        Box::new(text::tokens()),
+        Box::new(text::Ladders),
+        Box::new(text::CorpusMut),
+        Box::new(parse_rt::ParseTrees),
+        Box::new(parse_rt::Literals),
+    ]
 }
 
 pub fn by_name(name: &str) -> Option<Box<dyn Family>> {
